@@ -22,13 +22,14 @@ LEVEL = 'model_checking'
 
 
 def _lost_arguments(nodes, arrs):
-    """first node (post order) whose announced .arguments lack an Argument leaf it is built from; '' if none"""
+    """first closed node (post order) whose announced .arguments lack an Argument leaf it is built from; '' if none"""
     from nutils import evaluable as ev
     deps = []
     for n, a in zip(nodes, arrs):
         d = {dag.ARGNAMES[n['p'][0]]} if n['op'] == 'Arg' else set().union(*[deps[i - 1] for i in n['d']]) if n['d'] else set()
         deps.append(d)
-        if d - {x.name for x in a.arguments if isinstance(x, ev.Argument)}:
+        # (a free loop index legitimately does not announce the arguments of its length: only closed nodes are judged)
+        if not any(isinstance(x, ev._LoopIndex) for x in a.arguments) and d - {x.name for x in a.arguments if isinstance(x, ev.Argument)}:
             return n['op']
     return ''
 
